@@ -187,7 +187,7 @@ def run(ctx):
     if ctx.quick:
         sigs, maxposargs, maxstar, sample = signatures(2, 1), 3, 2, 1.0
     else:
-        sigs, maxposargs, maxstar, sample = signatures(3, 2), 4, 3, 0.45
+        sigs, maxposargs, maxstar, sample = signatures(3, 2), 4, 3, 0.22
     cases = []
     for sig in sigs:
         ssrc = sig_src(sig)
@@ -195,6 +195,8 @@ def run(ctx):
             cases.append({"kind": "bind", "sig": sig, "call": call, "src": ssrc + call_src(call)})
     nbind = len(cases)
     ucases = unpack_cases(ctx, rnd)
+    if not ctx.quick and len(ucases) > 450000:      # TLC needs ~4 GB of heap per 100k records
+        ucases = rnd.sample(ucases, 450000)
     for i, c in enumerate(cases + ucases):
         c["id"] = i + 1
     ctx.log("%d signatures, %d bind cases, %d unpack cases" % (len(sigs), nbind, len(ucases)))
@@ -257,7 +259,7 @@ def run(ctx):
                   [{"case": {k: c[k] for k in ("kind", "pairs", "call")}, "observed": ures[c["id"]]} for c in ucases[:: max(1, len(ucases) // 3)]][:3]
     ctx.assumptions = ["Binding!Bind is the Python 3 binding rule (validated against CPython on 54k pairs in the design phase)",
                        "argument values are distinct small integers, so a wrong binding is visible as a wrong value"]
-    return ctx.finish(rule="all signatures of the bounded domain x all call shapes (thorough tier: 45% seeded sample of the call shapes of the larger domain); "
+    return ctx.finish(rule="all signatures of the bounded domain x all call shapes (thorough tier: 22% seeded sample of the call shapes of the larger domain, 450k sampled unpack cases); "
                            "non-trivial = the call was accepted (a binding exists and was compared value by value); rejected calls are checked to be rejected by the spec too",
                       exhaustive=ctx.quick)
 
